@@ -156,8 +156,17 @@ def make_volume(img, meta):
     return fatspec.Volume(img, force_ft=force_ft(meta))
 
 
+_BASE = {}
+
+
 def fatspec_fsck(img, ref, enc, meta):
-    return fatspec.fsck(img, ref, enc, force_ft=force_ft(meta))
+    """findings of the image that the initial (possibly foreign, deliberately odd) image did not already have"""
+    key = (hash(ref), enc)
+    if key not in _BASE:
+        if len(_BASE) > 64:
+            _BASE.clear()
+        _BASE[key] = set(fatspec.fsck(ref, None, enc, force_ft=force_ft(meta)))
+    return [x for x in fatspec.fsck(img, ref, enc, force_ft=force_ft(meta)) if x not in _BASE[key]]
 
 
 def classify_finding(s):
